@@ -121,7 +121,7 @@ class Reject(Exception):
 EM_OPS = (
     ["append:0", "append:1", "append:2", "append:4", "extend:0,1", "extend:4,0", "appendF:2", "appendF:3", "appendF:0",
      "copy", "slice:0:1", "slice:1:", "slice:::-1", "add:EE", "add:ES", "remove_small:0.9", "remove_overlapping:0", "remove_overlapping:0.5",
-     "link+write", "merge01", "mut:E0", "mut:X0", "mut:S0", "clear", "copy_min:0.5", "extendS"]
+     "link+write", "link", "writeD:0", "writeD:1", "merge01", "mut:E0", "mut:X0", "mut:S0", "clear", "copy_min:0.5", "extendS"]
 )
 
 
@@ -140,13 +140,33 @@ class EmWorld:
         self.mS = None
         self.mdtype = None  # layout of the emulsion (model)
         self.mlinked = False
+        self.linkvalid = False  # self.D is a linked array whose rows are (still) the members of E
 
     # -- one transition on implementation and model ----------------------
     def apply(self, op):
+        self._apply(op)
+        if self.raised_ok is None and op.partition(":")[0] not in ("link", "link+write", "writeD", "merge01", "mut", "copy", "slice", "copy_min"):
+            self.linkvalid = False  # membership may have changed: the rows of an earlier linked array no longer describe the members
+
+    def _apply(self, op):
         from droplets import Emulsion
 
         name, _, arg = op.partition(":")
         E, X = self.E, self.X
+        if name == "link":
+            if len(self.mE) == 0 or len({v[0] for v in self.mE}) > 1 or len({vlayout(v) for v in self.mE}) > 1:
+                raise Reject
+            self.D = E.get_linked_data()
+            self.linkvalid = True
+            self.mlinked = True
+            return
+        if name == "writeD":
+            i = int(arg)
+            if not self.linkvalid or i >= len(self.mE):
+                raise Reject
+            self.D[i]["radius"] = 4.0 + i
+            self.mE[i] = vset_radius(self.mE[i], 4.0 + i)
+            return
         if name in ("append", "appendF"):
             i = int(arg)
             force = name == "appendF"
@@ -212,6 +232,7 @@ class EmWorld:
             D = E.get_linked_data()
             D[0]["radius"] = 9.0
             self.D = D
+            self.linkvalid = True
             self.mE[0] = vset_radius(self.mE[0], 9.0)
             self.mlinked = True
         elif name == "merge01":
@@ -254,10 +275,19 @@ class EmWorld:
         self.raised_ok = "no exception"
 
     def content(self):
-        return {"E": [val(d) for d in self.E], "S": None if self.S is None else [val(d) for d in self.S], "X": [val(x) for x in self.X]}
+        out = {"E": [val(d) for d in self.E], "S": None if self.S is None else [val(d) for d in self.S], "X": [val(x) for x in self.X]}
+        if self.linkvalid:
+            from numpy.lib.recfunctions import structured_to_unstructured
+
+            rows = np.asarray(structured_to_unstructured(np.asarray(self.D)), float).reshape(len(self.D), -1)
+            out["D"] = [(type(d).__name__, tuple(float(x) for x in row)) for d, row in zip(self.E, rows)]
+        return out
 
     def model(self):
-        return {"E": list(self.mE), "S": None if self.mS is None else list(self.mS), "X": list(self.mX)}
+        out = {"E": list(self.mE), "S": None if self.mS is None else list(self.mS), "X": list(self.mX)}
+        if self.linkvalid:
+            out["D"] = list(self.mE)  # linked rows and members are two views of the same values
+        return out
 
     def live(self):
         out = [("E", i, d) for i, d in enumerate(self.E)]
